@@ -15,6 +15,7 @@ import numpy as np
 from rv import core, zoo, fcsgen
 from rv.fingerprint import fp, diff
 
+ANCHORS = ['FCSData.__reduce__', 'FCSData.__setstate__', 'FCSData.__array_finalize__', 'FCSFile.__eq__', 'FCSFile.__hash__']      # functions the property is anchored in: never entered => inconclusive
 LEVEL = 'exploration'
 LEVEL_TEXT = 'State-space walk: all 156 operation sequences of length <= 3 over {slice channels, slice events, to RFI, to MEF, gate} x 10 duplication methods, equality by fingerprint and independence by mutating either side; FCSFile equality/hash on reloaded and minimally changed files. Exhaustive over the sequences, exploration over samples.'
 TECHNIQUE = 'state-space walk (all op sequences <= 3) with fingerprint equality + mutate-one-side independence checker'
